@@ -154,8 +154,13 @@ def additive_trie(ctx: Ctx, rule: str) -> None:
     fref = f"{PT}.insert"
     fn = ctx.repo.func(fref)
     ctx.touch(fref)
+    # a local naming `variants[0]` (or similar) is that expression
+    from ..canon import inline_locals
+
+    inl = inline_locals(fn.node, keep={"variants", "new_child"})
     outer = [l for l in fn.node.body if isinstance(l, ast.For)]
-    ok = len(outer) == 1 and ast.unparse(outer[0].iter) == "self.variant_nodes[variants[0]]"
+    outer_i = [l for l in inl.body if isinstance(l, ast.For)]
+    ok = len(outer) == 1 and len(outer_i) == 1 and ast.unparse(outer_i[0].iter) == "self.variant_nodes[variants[0]]"
     detail = {}
     if ok:
         o = outer[0]
@@ -191,7 +196,7 @@ def additive_trie(ctx: Ctx, rule: str) -> None:
                     ok = False
             tail = [s for s in o.body if s is not inner[0]]
             ok = ok and len(tail) == 1 and ast.unparse(tail[0]) == f"{cur}.end_test_node = {fn.params()[1]}" and o.body.index(tail[0]) > o.body.index(inner[0])
-    first = [s for s in fn.node.body if isinstance(s, ast.If)]
+    first = [s for s in inl.body if isinstance(s, ast.If)]
     ok_first = len(first) == 1 and norm.formula(first[0].test) in (("not", ("atom", "variants[0] in self.variant_nodes.keys()")), ("not", ("atom", "variants[0] in self.variant_nodes"))) \
         and [ast.unparse(x) for x in first[0].body] == ["self.variant_nodes[variants[0]] = [PrefixTreeNode(variants[0])]"]
     vdef = [s for s in fn.node.body if isinstance(s, ast.Assign) and ast.unparse(s.targets[0]) == "variants"]
@@ -246,11 +251,19 @@ def lookup_siblings(ctx: Ctx, rule: str) -> None:
             ok = ok and [ast.unparse(s) for s in a.body] == want and ast.unparse(a.iter) == "variants[1:]"
             ok = ok and [ast.unparse(s) for s in term_c] == ["return True"]
             tg = [ast.unparse(s) for s in term_g]
-            ok = ok and len(term_g) == 1 and isinstance(term_g[0], ast.For) and ast.unparse(term_g[0].iter) == f"{cur}.traverse()"
-            if ok:
-                t = term_g[0]
-                n = t.target.id
-                ok = [ast.unparse(s) for s in t.body] == [f"if {n}.end_test_node is not None:\n    test_nodes.append({n}.end_test_node)"]
+            # terminal of get: every end node below, as a filter loop or as one extend() over the same generator
+            if len(term_g) == 1 and isinstance(term_g[0], ast.Expr) and isinstance(term_g[0].value, ast.Call) and ast.unparse(term_g[0].value.func) == "test_nodes.extend" \
+                    and len(term_g[0].value.args) == 1 and isinstance(term_g[0].value.args[0], (ast.GeneratorExp, ast.ListComp)) and len(term_g[0].value.args[0].generators) == 1:
+                ge = term_g[0].value.args[0]
+                g0 = ge.generators[0]
+                n = ast.unparse(g0.target)
+                ok = ok and ast.unparse(g0.iter) == f"{cur}.traverse()" and ast.unparse(ge.elt) == f"{n}.end_test_node" and [ast.unparse(c_) for c_ in g0.ifs] == [f"{n}.end_test_node is not None"]
+            else:
+                ok = ok and len(term_g) == 1 and isinstance(term_g[0], ast.For) and ast.unparse(term_g[0].iter) == f"{cur}.traverse()"
+                if ok:
+                    t = term_g[0]
+                    n = t.target.id
+                    ok = [ast.unparse(s) for s in t.body] == [f"if {n}.end_test_node is not None:\n    test_nodes.append({n}.end_test_node)"]
             detail["terminal_get"] = tg
     tail_c = [ast.unparse(s) for s in bc[bc.index(lc[0]) + 1:]] if lc else []
     tail_g = [ast.unparse(s) for s in bg[bg.index(lg[0]) + 1:]] if lg else []
@@ -364,8 +377,15 @@ def graph_lookups(ctx: Ctx, rule: str) -> None:
                {"loop_rows": len(la)}, "" if not why2 else f"the restriction filters for nodes and objects differ or no longer match whole variants: {why2}")
     f = ctx.repo.func(f"{G}._unique_filter")
     ctx.touch(f.ref)
-    body = [ast.unparse(s_) for s_ in f.node.body if not (isinstance(s_, ast.Expr) and isinstance(s_.value, ast.Constant))]
-    ok3 = (len(body) == 3 and body[0].startswith("if len(items) == 0:\n    raise RuntimeError(") and body[1].startswith("if len(items) > 1:\n    raise RuntimeError(") and body[2] == "return items[0]")
+    got_u = semtab.function_table(f.node, effects=False)
+    want_u = semtab.reference_table("""
+        if len(items) == 0:
+            raise RuntimeError("none")
+        if len(items) > 1:
+            raise RuntimeError("several")
+        return items[0]
+    """, effects=False)
+    ok3 = semtab.mismatch(got_u, want_u) is None
     ctx.record(rule + "u", "TABLE", f.ref, "unique lookup: none -> RuntimeError, more than one -> RuntimeError, else the one element", ok3, {}, "" if ok3 else "a 'unique' lookup no longer insists on exactly one result")
     f = ctx.repo.func(f"{G}.get_nodes_by_name")
     ctx.touch(f.ref)
